@@ -127,7 +127,12 @@ def err_state_error(f, seen, eok):
     return False
 
 
+BODYSET = [set()]
+
+
 def rule_r3(chk, facts, u):
+    P = facts.program('asl')
+    BODYSET[0] = asl_phases(facts, P)['BODY']
     chk.rule('C12-R3', 'asmif.c: every assignment to IfAsm either restores the saved outer value, has IfAsm/SaveIfAsm '
              'as a conjunct, or is guarded by SaveIfAsm: a construct can only narrow what its parent enabled; '
              'CaseFound is only ever set to true after creation', min_instances=6)
@@ -138,8 +143,8 @@ def rule_r3(chk, facts, u):
             if is_assign(n) and strip(n[2]) == ('g', 'IfAsm'):
                 r = nocast(n[3])
                 key = 'asmif.c:%s:IfAsm=%s' % (f.name, show(r)[:60])
-                if f.name == 'AsmIFInit':
-                    chk.ob('C12-R3', key, const_val(r) == 1, f.loc(ln), 'per-file initial value')
+                if f not in BODYSET[0] and const_val(r) == 1:
+                    chk.ob('C12-R3', key, True, f.loc(ln), 'initial value set outside the body of a pass')
                     continue
 
                 def conj(e):
@@ -255,6 +260,53 @@ def rule_r6(chk, facts):
                'no end-of-pass error for a non-empty %s: an unbalanced construct is accepted silently' % head)
 
 
+def boolean_valued(f, e):
+    e = nocast(e) if not (isinstance(e, (list, tuple)) and e and e[0] == 'cast') else e
+    e = strip(e)
+    if not isinstance(e, tuple) or not e:
+        return False
+    k = e[0]
+    if k == 'cast':
+        return boolean_valued(f, e[4])
+    if k == 'c':
+        return e[1] in (0, 1)
+    if k == 'b' and e[1] in ('==', '!=', '<', '>', '<=', '>=', '&&', '||'):
+        return True
+    if k == 'u' and e[1] == '!':
+        return True
+    if k == '?':
+        return boolean_valued(f, e[2]) and boolean_valued(f, e[3])
+    if k == 'b' and e[1] == '=':
+        return boolean_valued(f, e[3])
+    if k in ('l', 'p'):
+        t = f.locals.get(e[1]) if k == 'l' else next((p['type'] for p in f.params if p['name'] == e[1]), None)
+        return bool(t and abs(t.get('bits', 0)) in (1, 8))
+    if k == 'm':
+        return False
+    return False
+
+
+def rule_r7(chk, facts, u):
+    chk.rule('C12-R7', 'asmif.c: a value is implicitly narrowed to the 8-bit Boolean type only when it is already a '
+             'truth value (comparison, logical operation, Boolean variable): the 32-bit result of a condition '
+             'expression is compared with zero before it is stored or passed as a flag', min_instances=15)
+    for f in u.funcs.values():
+        if f.file != 'asmif.c':
+            continue
+        for b, i, ln, ex in f.elems():
+            for m in walk_own(ex):
+                if m[0] == 'cast' and m[1] == 'i' and abs(m[2]) in (1, 8):
+                    ok = boolean_valued(f, m[4]) or (strip(m[4])[0] == 'm' and True and _field_bits_le8(facts, strip(m[4])))
+                    chk.ob('C12-R7', 'asmif.c:%s:narrow:%s' % (f.name, show(m[4])[:50]), ok, f.loc(ln),
+                           'truth value' if ok else
+                           'the %d-bit value %s is truncated to 8 bits where a truth value is expected: a condition '
+                           'such as 256 or 4096 (low byte zero) is taken for FALSE' % (abs(m[3]), show(m[4])))
+
+
+def _field_bits_le8(facts, e):
+    return False
+
+
 def run(chk, facts, info):
     u = facts.unit('asmif.c')
     rule_r1(chk, facts, u)
@@ -267,6 +319,7 @@ def run(chk, facts, info):
     rule_r4(chk, facts)
     rule_r5(chk, facts, u)
     rule_r6(chk, facts)
+    rule_r7(chk, facts, u)
     chk.note('Decided: state machine of the conditional handlers against the documented protocol, null guards, '
              'monotone narrowing of IfAsm, IfAsm guards of the line decoder, argument loops, end-of-pass balance '
              'checks. Not decided: truth of individual conditions.')
